@@ -421,7 +421,9 @@ def _run_case(case, ctx):
     if case.get("f32"):
         tol = (2e-5, 2e-4)
         if _has(spec, "matern", nu=0.5) or _has(spec, "pp"):
-            tol = (2e-3, 2e-4)  # sqrt of the float32 rounding noise of a squared distance (3e-4) at coincident points
+            # sqrt of the float32 rounding noise of a squared distance (3e-4) at coincident points, divided by the (smallest) lengthscale
+            lmin32 = min([float(mod.lengthscale.min()) for mod in kern.modules() if getattr(mod, "has_lengthscale", False) and mod.lengthscale is not None] or [1.0])
+            tol = (min(2e-3 * max(1.0, 1.0 / max(lmin32, 1e-2)), 5e-2), 2e-4)
         cls = spec["k"] + ":f32"
         # the oracle reads the (float32) parameter values and works in float64
         kern_ref = __import__("copy").deepcopy(kern).double()
